@@ -86,6 +86,30 @@ Definition exp02_tag_opts : list (list N * topt) := [
   ([111; 109; 105; 116; 101; 109; 112; 116; 121]%N, OOmitEmpty) (* "omitempty" *);
   ([108; 105; 115; 116]%N, OAsList) (* "list" *) ].
 
+(* Encode: the statements, in order; EHeader <network format> <file format> *)
+Definition exp02_encode_steps : list estep := [ENilErr; EGetTag; EHeader HTagByte HWriteTag; EErrRet; EMarshal].
+
+(* getTagType: the statements of the unwrapping loop, and those after it, in order *)
+Definition exp02_loop_steps : list lstep := [LIfaceElem; LNonPtrBreak; LSelfRefBreak; LNilNew; LAskIfaces; LDeref].
+Definition exp02_post_steps : list pstep := [PAskIfaces; PPtrMarshaler; PKindSwitch].
+
+(* writeValue, TagByteArray / TagIntArray / TagLongArray: the length, then the elements *)
+Definition exp02_array_steps : list wstep := [WLen; WLen32; WElems].
+(* writeValue, TagList *)
+Definition exp02_list_steps : list wstep := [WElemTypeFirstOrType; WListHeader; WLoop [WElemTag; WMixedErr; WMarshalElem]].
+(* writeValue, TagString *)
+Definition exp02_string_steps : list wstep := [WStrBytes; WStrLimit exp02_str_max; WLen16; WStrData].
+(* writeValue, TagCompound of a map: the entry loop, then the TagEnd byte *)
+Definition exp02_map_steps : list wstep := [WLoop [WKeyName; WValTag; WEndErr nbt_TagEnd; WWriteTag; WMarshalVal]; WEndByte nbt_TagEnd].
+(* writeListHeader *)
+Definition exp02_listheader_steps : list wstep := [WLHElemByte; WLen32].
+
+(* typeFields: the keys of the sort, in order; byIndex.Less; dominantField; the final order is byIndex *)
+Definition exp02_sort_keys : list skey := [SKName; SKDepth; SKTagged; SKIndex].
+Definition exp02_index_less : list istep := [IShorterFalse; IDiffLt; IEndLenLt].
+Definition exp02_dominant : list dcond * dres * dres := ([DLenGt1; DDepthEq; DTagEq], DNone, DFirst).
+Definition exp02_final_order : skey := SKIndex.
+
 (* Encoder.Encode *)
 Definition exp02_skel_Encoder_Encode : list gstmt := [
   GIf "" "v == nil" [
@@ -555,6 +579,30 @@ Proof. reflexivity. Qed.
 Lemma c02_tag_legacy_ok : c02_tag_legacy = exp02_tag_legacy.
 Proof. reflexivity. Qed.
 Lemma c02_tag_opts_ok : c02_tag_opts = exp02_tag_opts.
+Proof. reflexivity. Qed.
+Lemma c02_encode_steps_ok : c02_encode_steps = exp02_encode_steps.
+Proof. reflexivity. Qed.
+Lemma c02_loop_steps_ok : c02_loop_steps = exp02_loop_steps.
+Proof. reflexivity. Qed.
+Lemma c02_post_steps_ok : c02_post_steps = exp02_post_steps.
+Proof. reflexivity. Qed.
+Lemma c02_array_steps_ok : c02_array_steps = exp02_array_steps.
+Proof. reflexivity. Qed.
+Lemma c02_list_steps_ok : c02_list_steps = exp02_list_steps.
+Proof. reflexivity. Qed.
+Lemma c02_string_steps_ok : c02_string_steps = exp02_string_steps.
+Proof. reflexivity. Qed.
+Lemma c02_map_steps_ok : c02_map_steps = exp02_map_steps.
+Proof. reflexivity. Qed.
+Lemma c02_listheader_steps_ok : c02_listheader_steps = exp02_listheader_steps.
+Proof. reflexivity. Qed.
+Lemma c02_sort_keys_ok : c02_sort_keys = exp02_sort_keys.
+Proof. reflexivity. Qed.
+Lemma c02_index_less_ok : c02_index_less = exp02_index_less.
+Proof. reflexivity. Qed.
+Lemma c02_dominant_ok : c02_dominant = exp02_dominant.
+Proof. reflexivity. Qed.
+Lemma c02_final_order_ok : c02_final_order = exp02_final_order.
 Proof. reflexivity. Qed.
 Lemma c02_skel_Encoder_Encode_ok : c02_skel_Encoder_Encode = exp02_skel_Encoder_Encode.
 Proof. reflexivity. Qed.
